@@ -28,7 +28,9 @@ RULE = (
     "with negate, arity 1-3 and nesting depth 2; Negate wrappers) and every tree is queried against every repository "
     "of a universe of in-memory repositories (all small subsets of 3 categories x 3 packages x 2 versions, plus the "
     "full ones; a case-insensitive universe; a universe of versions whose string order differs from version order) "
-    "in every query mode; the result multiset/order is compared with the brute-force filter. A class is "
+    "in every query mode; stacks of mutable repositories are additionally driven through every bounded sequence of "
+    "queries / notify_add_package / notify_remove_package / stack+repo before a final query, judged against a "
+    "plain-Python model of the members' contents; the result multiset/order is compared with the brute-force filter. A class is "
     "(top-level node kind, how the candidate set was pruned on the full repository) plus the match-none/some/all "
     "outcome; distinct_nontrivial counts classes observed."
 )
@@ -39,10 +41,11 @@ ASSUMPTIONS = [
     "Excl: itermatch keywords pkg_filter, pkg_cls, force, yield_none are not exercised (the statement does not speak about them)",
     "Excl: PackageRestrictionMulti, Conditional and value-level boolean restrictions on category/package are outside the alphabet",
     "repositories larger than the bound (see bounds) other than the full universe are not covered",
+    "Excl: operation sequences in which a mutation (notify_add_package / notify_remove_package / stack + repo) itself raises are not judged (class seq-op-raised); the statement speaks about query answers only. On the current tree this is SimpleTree.notify_remove_package of the last version of a package whose versions were never looked up (KeyError)",
 ]
 BOUNDS = {
-    "quick": "universe 3 cats x 3 pkgs x 2 versions: all repos with <=1 package + 10 fixed larger ones incl. all-version-1 and full (29 repos); 5814 restriction trees (depth<=2; depth-2 trees over 4 leaves / 3 leaves for the 4-leaf shapes) + 458 case-insensitive trees on all 16 repos of a 2x2x1 universe + a version-order universe (versions 1_rc1 1 1_p1 1.2 1.9 1.10 9 10 whose string order differs from PMS order: all pairs/triples of one package in scrambled insertion order, 87 repos x 18 restrictions, expected order from verif.ref.pms_ver_cmp); 5 core query modes on every repo, 7 wrapper modes on 4-5 repos, 4 stack modes on those x 3-4 partners x both orders",
-    "thorough": "same universes: all repos with <=2 packages + the same larger ones (180 repos); 41454 restriction trees (depth<=2, arity<=3, 3-leaf trees over 7 leaves with exactly-one/at-most-one inner nodes, 4-leaf trees over 4 leaves with all node negations) + the case-insensitive and version-order universes as quick; modes as quick",
+    "quick": "universe 3 cats x 3 pkgs x 2 versions: all repos with <=1 package + 10 fixed larger ones incl. all-version-1 and full (29 repos); 5814 restriction trees (depth<=2; depth-2 trees over 4 leaves / 3 leaves for the 4-leaf shapes) + 458 case-insensitive trees on all 16 repos of a 2x2x1 universe + a version-order universe (versions 1_rc1 1 1_p1 1.2 1.9 1.10 9 10 whose string order differs from PMS order: all pairs/triples of one package in scrambled insertion order, 87 repos x 18 restrictions, expected order from verif.ref.pms_ver_cmp); 5 core query modes on every repo, 7 wrapper modes on 4-5 repos, 4 stack modes on those x 3-4 partners x both orders; non-initial states: all enabled operation sequences of length <=3 (10272) over {5 queries through the stack, notify_add_package x 2 members x 3 packages (new package in a known category / new category / new version), notify_remove_package x 2 members x 5 packages, stack + extra repo} on multiplex.tree and RepositoryGroup over 2 initial member layouts, each followed by one of 8 final queries (plain and sorted through the stack, 3 of them also on every member), everything rebuilt per (sequence, final query)",
+    "thorough": "same universes: all repos with <=2 packages + the same larger ones (180 repos); 41454 restriction trees (depth<=2, arity<=3, 3-leaf trees over 7 leaves with exactly-one/at-most-one inner nodes, 4-leaf trees over 4 leaves with all node negations) + the case-insensitive and version-order universes as quick; modes as quick; operation sequences of length <=4 (134220)",
 }
 
 # ----------------------------------------------------------------------------------------------
@@ -577,6 +580,8 @@ def show(desc):
 
 
 def replay(case):
+    if "seq" in case:
+        return seq_replay(case)
     partner = case.get("partner")
     app, msg, kind = check_case(case["r"], case["repo"], case["mode"], partner, case.get("first", True))
     if not msg:
@@ -584,6 +589,224 @@ def replay(case):
     repo = [tuple(t) for t in case["repo"]]
     partner = [tuple(t) for t in partner] if partner is not None else None
     return [mk_case(case["r"], repo, case["mode"], msg, kind, partner, case.get("first", True))["msg"]]
+
+
+# ----------------------------------------------------------------------------------------------
+# non-initial states: operation sequences on a stack of mutable repositories
+#
+# A stack (multiplex.tree or util.RepositoryGroup) over SimpleTree members is driven through every
+# sequence of operations up to a depth bound; then ONE final query is asked of the stack (or of a
+# member) and compared with a brute-force filter over a plain-Python model of the members'
+# contents (lists updated by the add/remove operations, concatenated in stack order).  Everything
+# is rebuilt from scratch for every (sequence, final query), so only the queries that are part of
+# the sequence can have warmed any lazily filled mapping.
+#   ops: ["q", desc]  query through the stack (result consumed)
+#        ["add", m, cpv] / ["rm", m, cpv]   members[m].notify_add_package / notify_remove_package
+#        ["plus"]      stack = stack + extra_repo (extends the stack in place)
+
+SEQ_SETUPS = (
+    ((("a", "p", "1"),), ()),
+    ((("a", "p", "1"),), (("b", "q", "1"),)),
+)
+SEQ_EXTRA = (("a", "q", "1"), ("b", "p", "1"))
+SEQ_ADD = (("a", "q", "1"), ("b", "p", "1"), ("a", "p", "2"))
+SEQ_RM = (("a", "p", "1"), ("a", "q", "1"), ("b", "p", "1"), ("b", "q", "1"), ("a", "p", "2"))
+SEQ_QOPS = (["atom", "a/p"], ["atom", "a/q"], ["atom", "b/p"], ["atom", "b/q"], ["pkg", ["exact", "q"], 0, 0])
+SEQ_FINAL = (
+    ["atom", "a/p"], ["atom", "a/q"], ["atom", "b/p"], ["atom", "b/q"], ["atom", "=a/p-2"],
+    ["true"], ["pkg", ["exact", "q"], 0, 0], ["cat", ["exact", "b"], 0, 0],
+)
+# final queries also asked of every member on its own (is the member itself fresh after notify_*?)
+SEQ_MEMBER_FINAL = (["atom", "a/q"], ["atom", "b/p"], ["true"])
+SEQ_KINDS = ("mux", "group")
+SEQ_DEPTH = {"quick": 3, "thorough": 4}
+
+
+def seq_all_ops():
+    ops = [["q", d] for d in SEQ_QOPS]
+    ops += [["add", m, list(c)] for m in (0, 1) for c in SEQ_ADD]
+    ops += [["rm", m, list(c)] for m in (0, 1) for c in SEQ_RM]
+    ops.append(["plus"])
+    return ops
+
+
+def seq_model_apply(model, op):
+    """Apply op to the model (list of lists of cpv tuples). Returns False if the op is not enabled."""
+    if op[0] == "q":
+        return True
+    if op[0] == "plus":
+        if len(model) > 2:
+            return False
+        model.append(list(SEQ_EXTRA))
+        return True
+    m, c = op[1], tuple(op[2])
+    if op[0] == "add":
+        if c in model[m]:
+            return False
+        model[m].append(c)
+        return True
+    if c not in model[m]:
+        return False
+    model[m].remove(c)
+    return True
+
+
+def seq_enumerate(setup, depth, first=None):
+    """All enabled op sequences of length <= depth (simplest first); optionally only those starting with op #first."""
+    ops = seq_all_ops()
+    out = []
+
+    def rec(prefix, model, d):
+        out.append(list(prefix))
+        if d == 0:
+            return
+        for i, op in enumerate(ops):
+            if not prefix and first is not None and i != first:
+                continue
+            m2 = [list(x) for x in model]
+            if seq_model_apply(m2, op):
+                rec(prefix + [op], m2, d - 1)
+
+    rec([], [list(x) for x in setup], depth)
+    if first is not None:
+        out = [x for x in out if x]
+    out.sort(key=len)
+    return out
+
+
+def _mk_mutable(cpvs):
+    from pkgcore.repository.util import SimpleTree
+
+    d = {}
+    for c, p, v in cpvs:
+        d.setdefault(c, {}).setdefault(p, []).append(v)
+    return SimpleTree(d, frozen=False)
+
+
+def seq_run(kind, setup, ops, fq, mode, target):
+    """Rebuild the stack, replay ops, ask the final query. Returns (message or None, failure kind)."""
+    from pkgcore.repository import multiplex
+    from pkgcore.repository.util import RepositoryGroup
+
+    members = [_mk_mutable(c) for c in setup]
+    model = [[tuple(t) for t in c] for c in setup]
+    stack = multiplex.tree(*members) if kind == "mux" else RepositoryGroup(members)
+    for i, op in enumerate(ops):
+        try:
+            if op[0] == "q":
+                list(stack.itermatch(build(op[1])))
+            elif op[0] == "plus":
+                x = _mk_mutable(SEQ_EXTRA)
+                stack = stack + x
+                members.append(x)
+            elif op[0] == "add":
+                members[op[1]].notify_add_package(_vcpv(tuple(op[2])))
+            else:
+                members[op[1]].notify_remove_package(_vcpv(tuple(op[2])))
+        except Exception as e:
+            # a failing query is a violation; a failing mutation makes the sequence non-executable (the statement
+            # speaks about query answers only), it is counted and reported in the classes, not judged
+            kind_ = "error" if op[0] == "q" else "op-raised"
+            return f"operation #{i + 1} {show_op(op)} raised {type(e).__name__}: {e}", kind_
+        if not seq_model_apply(model, op):
+            raise ValueError(f"op {op} not enabled in the model")
+    if fq is None:
+        return None, None
+    q = Query(fq)
+    if target == "stack":
+        exp = [t for m in model for t in m if q.matches(t)]
+        src = stack
+    else:
+        exp = [t for t in model[target] if q.matches(t)]
+        src = members[target]
+    try:
+        if mode == "sorted":
+            exp, ordered = sorted(exp, key=_refkey), True
+            got = [_key(x) for x in src.itermatch(q.r, sorter=sorted)]
+        else:
+            ordered = False
+            got = [_key(x) for x in src.itermatch(q.r)]
+    except Exception as e:
+        return f"raised {type(e).__name__}: {e}", "error"
+    return judge(got, exp, ordered)
+
+
+def show_op(op):
+    if op[0] == "q":
+        return f"query({show(op[1])})"
+    if op[0] == "plus":
+        return f"stack+[{_fmt([tuple(t) for t in SEQ_EXTRA])}]"
+    return f"member{op[1]}.notify_{'add' if op[0] == 'add' else 'remove'}_package({op[2][0]}/{op[2][1]}-{op[2][2]})"
+
+
+def seq_case(kind, setup, ops, fq, mode, target, msg, fail):
+    what = "stack" if target == "stack" else f"member{target}"
+    text = (
+        f"{'multiplex.tree' if kind == 'mux' else 'RepositoryGroup'} over {[_fmt(c) for c in setup]} after "
+        f"[{'; '.join(show_op(o) for o in ops)}]: "
+        + (f"{what}.itermatch[{mode}] of {show(fq)}: " if fq is not None else "")
+        + msg
+    )
+    return {
+        "seq": {"kind": kind, "setup": [[list(t) for t in c] for c in setup], "ops": ops, "mode": mode, "target": target},
+        "r": fq if fq is not None else ["true"],
+        "fq": fq,
+        "fail": fail,
+        "msg": text,
+    }
+
+
+def seq_replay(case):
+    sq = case["seq"]
+    setup = [[tuple(t) for t in c] for c in sq["setup"]]
+    msg, fail = seq_run(sq["kind"], setup, sq["ops"], case["fq"], sq["mode"], sq["target"])
+    if not msg:
+        return []
+    return [seq_case(sq["kind"], setup, sq["ops"], case["fq"], sq["mode"], sq["target"], msg, fail)["msg"]]
+
+
+def seq_tasks(tier):
+    nops = len(seq_all_ops())
+    return [(tier, "seq", (kind, si), first) for kind in SEQ_KINDS for si in range(len(SEQ_SETUPS)) for first in [None] + list(range(nops))]
+
+
+def seq_work(task, record):
+    tier, _, (kind, si), first = task
+    setup = SEQ_SETUPS[si]
+    depth = SEQ_DEPTH[tier]
+    seqs = [[]] if first is None else seq_enumerate(setup, depth, first)
+    evals = 0
+    classes = {}
+    samples = []
+    for ops in seqs:
+        sig = "seq|" + ("+".join(sorted({o[0] for o in ops})) or "initial")
+        classes[sig] = classes.get(sig, 0) + 1
+        nmembers = 2 + sum(1 for o in ops if o[0] == "plus")
+        failed = set()
+        for fq in SEQ_FINAL:
+            if "opr" in failed:
+                break
+            targets = [("plain", "stack"), ("sorted", "stack")]
+            if fq in SEQ_MEMBER_FINAL:
+                targets += [("plain", i) for i in range(nmembers)]
+            for mode, target in targets:
+                msg, fail = seq_run(kind, setup, ops, fq, mode, target)
+                evals += 1
+                if fail == "op-raised":
+                    failed.add("opr")
+                    classes["seq-op-raised"] = classes.get("seq-op-raised", 0) + 1
+                    break
+                if msg and fail == "error" and msg.startswith("operation #"):
+                    # an operation of the sequence itself failed; record once, without a final query
+                    if "op" not in failed:
+                        failed.add("op")
+                        record(seq_case(kind, setup, ops, None, mode, target, msg, fail))
+                    continue
+                if msg:
+                    record(seq_case(kind, setup, ops, fq, mode, target, msg, fail))
+        if not samples and len(ops) == depth:
+            samples.append({"stack": kind, "sequence": [show_op(o) for o in ops]})
+    return evals, classes, samples
 
 
 # ----------------------------------------------------------------------------------------------
@@ -598,6 +821,7 @@ def tasks(tier):
         n = len(restrictions_of(tier, uni))
         ch = CHUNK[tier]
         out += [(tier, uni, lo, min(lo + ch, n)) for lo in range(0, n, ch)]
+    out += seq_tasks(tier)
     return out
 
 
@@ -641,6 +865,22 @@ MAX_KNOWN_PER_CLASS = 4
 
 
 def work(task):
+    if task[1] == "seq":
+        unknown, known = [], {}
+
+        def record(case):
+            for name, fn in CLASSIFIERS.items():
+                if fn(case):
+                    l = known.setdefault(name, [])
+                    if len(l) < MAX_KNOWN_PER_CLASS:
+                        l.append(case)
+                    return
+            if len(unknown) < MAX_UNKNOWN:
+                unknown.append(case)
+
+        evals, classes, samples = seq_work(task, record)
+        viol = unknown + [c for l in known.values() for c in l]
+        return {"evals": evals, "classes": classes, "viol": viol, "samples": samples, "keep_all_viol": True}
     tier, uni, lo, hi = task
     descs = restrictions_of(tier, uni)[lo:hi]
     repos, wrepos, partners = _repos(tier, uni)
